@@ -59,7 +59,7 @@ def cases(draw, tier="quick"):
             node["major"], node["minor"] = draw(st.integers(0, 4095)), draw(st.integers(0, 0xFFFFF))
         used.add(path)
         nodes.append(node)
-    root_style = draw(st.sampled_from(["abs", "abs_hostile", "rel", "rel_hostile", "none"]))
+    root_style = draw(st.sampled_from(["abs", "abs_hostile", "rel", "rel_hostile", "rel_up", "none"]))   # rel_up: relative, climbing out through '..' 
     rootname = draw(hostile_names()) if "hostile" in root_style else b"unpacked"
     # the root directory is an entry like any other: its permission bits and owner belong to the tree
     root_attr = draw(st.sampled_from([None, None, (0o750, 1000, 2000), (0o1777, 0, 0), (0o755, 0, 5), (0o700, 70000, 70000), (0o2775, 3, 4)]))
@@ -95,6 +95,11 @@ def check_case(case, opts):
         if style.startswith("abs"):
             R = os.path.join(work, rn)
             Rarg = R
+        elif style == "rel_up":
+            # a relative root that leaves the working directory through '..' and comes back: input locations are file system paths,
+            # not names inside the image, and may contain '..'
+            R = os.path.join(work, rn)
+            Rarg = os.path.join("..", "work", rn)
         elif style.startswith("rel"):
             R = os.path.join(work, rn)
             Rarg = rn
